@@ -281,6 +281,7 @@ type Parser struct {
 // Thread Safety: NOT thread-safe - use separate parser instances per goroutine.
 func (p *Parser) Parse(tokens []token.Token) (*ast.AST, error) {
 	p.tokens = tokens
+	p.positions = nil // no position mapping for this input (may be left from ParseWithPositions)
 	p.currentPos = 0
 	if len(tokens) > 0 {
 		p.currentToken = tokens[0]
@@ -546,6 +547,7 @@ func (p *Parser) ParseContext(ctx context.Context, tokens []token.Token) (*ast.A
 	defer func() { p.ctx = nil }() // Clear context when done
 
 	p.tokens = tokens
+	p.positions = nil // no position mapping for this input (may be left from ParseWithPositions)
 	p.currentPos = 0
 	if len(tokens) > 0 {
 		p.currentToken = tokens[0]
